@@ -19,6 +19,22 @@ import (
 	"github.com/ucan-wg/go-ucan/token/invocation"
 )
 
+// the keys a container lists, without the one the caller added (its presence is reported apart), in sorted order:
+// the order of iteration is not something a property constrains
+func splitMine(keys []string, mine string) (string, bool) {
+	found := false
+	var others []string
+	for _, k := range keys {
+		if k == mine {
+			found = true
+		} else {
+			others = append(others, k)
+		}
+	}
+	sort.Strings(others)
+	return strings.Join(others, ","), found
+}
+
 func init() { register(&Engine{Name: "conc", Gen: genConc}) }
 
 type concFixture struct {
@@ -227,11 +243,8 @@ var concOps = []concOp{
 			}
 			return na, nil
 		})
-		last := ""
-		if len(keys) > 0 {
-			last, keys = keys[len(keys)-1], keys[:len(keys)-1]
-		}
-		return fmt.Sprint(err == nil, strings.Join(keys, ","), last == mine)
+		others, found := splitMine(keys, mine)
+		return fmt.Sprint(err == nil, others, found)
 	}},
 	{"meta_clone_adds", func(fx *concFixture) string {
 		// a writeable clone of a token's metadata (and of its arguments) is the caller's own: additions to it
@@ -248,12 +261,9 @@ var concOps = []concOp{
 			for k := range cl.Iter() {
 				keys = append(keys, k)
 			}
-			last := ""
-			if len(keys) > 0 {
-				last, keys = keys[len(keys)-1], keys[:len(keys)-1]
-			}
+			others, found := splitMine(keys, mine)
 			v, err := cl.GetInt64(mine)
-			out = append(out, fmt.Sprint(strings.Join(keys, ","), last == mine, v, err))
+			out = append(out, fmt.Sprint(others, found, v, err))
 		}
 		ac := fx.inv.Arguments().WriteableClone()
 		if err := ac.Add(mine, 1); err != nil {
@@ -264,7 +274,8 @@ var concOps = []concOp{
 		for k := range ac.Iter() {
 			keys = append(keys, k)
 		}
-		out = append(out, fmt.Sprint(strings.Join(keys[:len(keys)-1], ","), keys[len(keys)-1] == mine))
+		others, found := splitMine(keys, mine)
+		out = append(out, fmt.Sprint(others, found))
 		return strings.Join(out, "|")
 	}},
 	{"to_sealed", func(fx *concFixture) string {
